@@ -60,11 +60,14 @@ func ApplyClusterChanges(config *model.ClusterConfig, currentStatus *model.Clust
 			ReplicationFactor: nc.ReplicationFactor,
 		}
 
+		serverIdxBeforeNamespace := newStatus.ServerIdx
+		incomplete := false
 		for _, shard := range sharding.GenerateShards(newStatus.ShardIdGenerator, nc.InitialShardCount) {
 			var esm []model.Server
 			if esm, err = ensembleSupplier(&nc, newStatus); err != nil {
 				slog.Error("failed to select new ensembles.", slog.Any("shard", shard), slog.Any("error", err))
-				continue
+				incomplete = true
+				break
 			}
 			shardMetadata := model.ShardMetadata{
 				Status:   model.ShardStatusUnknown,
@@ -80,6 +83,15 @@ func ApplyClusterChanges(config *model.ClusterConfig, currentStatus *model.Clust
 			nss.Shards[shard.Id] = shardMetadata
 			newStatus.ServerIdx = (newStatus.ServerIdx + nc.ReplicationFactor) % uint32(len(config.Servers))
 			shardsToAdd[shard.Id] = nc.Name
+		}
+		if incomplete {
+			// A namespace whose shards do not cover the whole hash range must never be published:
+			// leave it out (it is retried on the next config change) and give back what it took.
+			for shardId := range nss.Shards {
+				delete(shardsToAdd, shardId)
+			}
+			newStatus.ServerIdx = serverIdxBeforeNamespace
+			continue
 		}
 		newStatus.Namespaces[nc.Name] = nss
 
